@@ -18,4 +18,35 @@ CLAIMS = {
     },
 }
 
+CLAIMS["C08"] = {
+    "text": "Lean theorems over the executable model of the area list: a read succeeds iff the whole range lies in the "
+            "readable area containing its start and then returns exactly the addressed bytes of the byte map; a write changes "
+            "exactly the addressed bytes and nothing else (names, extents, permissions fixed); neither ever panics or wraps "
+            "for any address/length (including 2^64-1); little-endian round trips for every width; typed accessors = byte "
+            "accessors; read-after-write and consistency over every history of writes (induction). Tied to "
+            "src/state/memory.rs by a differential run over boundary (address, length) pairs, areas ending at 2^64 and write histories.",
+    "design_ref": "DESIGN.md section 7, C08",
+    "note": COMMON_NOTE + "Allocation failure for huge lengths is outside the model.",
+    "technique": "Lean 4 proof (byte-map refinement, invariants by induction over histories) + model-vs-code differential correspondence",
+}
+CLAIMS["C09"] = {
+    "text": "Lean theorems: every successful read/write/fetch primitive implies R/W/X on every touched address; a denied "
+            "access is an error value with no state; permissions survive writes; non-writable bytes (constructor code, "
+            "R+X segments) are invariant over every history of writes without mem_prot; constructor maps code with mask 5; "
+            "new data areas are not executable. Correspondence: all 8 masks x read/write/fetch x API accessors with a second area present.",
+    "design_ref": "DESIGN.md section 7, C09",
+    "note": COMMON_NOTE + "Instruction-level stores (PUSH/CALL/read-modify-write) are tied to the write primitive by the instruction correspondence, not by a theorem in this check.",
+    "technique": "Lean 4 proof (permission lemmas over the three access primitives, invariance by induction) + differential correspondence over all masks",
+}
+CLAIMS["C10"] = {
+    "text": "Lean theorems: NoOverlap (no address in two areas) and the representation invariant are preserved by every "
+            "area operation, successful or rejected, hence hold in every reachable layout (induction over operation "
+            "histories); an overlapping or past-2^64 request is rejected; anywhere-allocation terminates (termination "
+            "checker) and returns a fresh area with the supplied bytes; resize succeeds iff the new extent collides with no "
+            "other area, keeps the prefix and zero-fills growth. Correspondence: operation sequences positioned relative to existing areas, area list compared after every op.",
+    "design_ref": "DESIGN.md section 7, C10",
+    "note": COMMON_NOTE + "Allocation failure for huge lengths is outside the model.",
+    "technique": "Lean 4 proof (inductive invariant over all operation histories, termination by well-founded recursion) + differential correspondence",
+}
+
 NOT_YET = {}
